@@ -34,6 +34,18 @@ def bad_calls(M, rng, held):
         ('wrong-arity', 'apply', ('ite', u, u, None)),
         ('wrong-arity', 'apply', ('or', u, u, u)),
         ('unknown-node', 'find_or_add', (0, unknown, 1)),
+        ('unknown-node', 'find_or_add', (0, 1, unknown)),
+        ('unknown-node', 'find_or_add', (0, u, -unknown)),
+        ('unknown-node', 'to_expr', (unknown,)),
+        ('unknown-node', 'to_expr', (-unknown,)),
+        ('unknown-node', 'to_dot', ([u, unknown],)),
+        ('unknown-node', 'to_nx', ([unknown],)),
+        ('unknown-node', 'is_essential', (unknown, 0)),
+        ('unknown-node', 'let_ref', ({0: unknown}, u)),
+        ('unknown-node', 'let_bool', ({0: True}, unknown)),
+        ('unknown-node', 'ite', (u, unknown, u)),
+        ('unknown-node', 'ite', (unknown, u, u)),
+        ('unknown-node', 'ite', (u, u, -unknown)),
         ('bad-level', 'find_or_add', (n + 2, -1, 1)),
         ('unknown-node', 'incref', (unknown,)),
         ('unknown-node', 'decref', (unknown,)),
@@ -133,6 +145,7 @@ def history(ctx, n, steps, reordering):
         return {u: oracle.tt_fast(M.b, u, [vname(i) for i in range(n)], memo) for u in held}
 
     kind = None
+    roots_now = []
     for step in range(steps):
         k = rng.random()
         kind = None
@@ -150,13 +163,18 @@ def history(ctx, n, steps, reordering):
             M.op('gc', None)
         elif k < 0.49 and held:
             # the `roots` attribute (explicit reorderings protect what it names)
-            M.op('set_roots', rng.sample(list(held), min(len(held), rng.randint(1, 2))))
+            roots_now = rng.sample(list(held), min(len(held), rng.randint(1, 2)))
+            M.op('set_roots', roots_now)
         elif k < 0.52 and n >= 2:
             x = rng.randrange(n - 1)
             if not reordering:
                 M.op('swap', x, x + 1)
         elif k < 0.57 and held:
             u = rng.choice(list(held))
+            if u in roots_now and held[u] == 1:
+                # `roots` may only name nodes that stay referenced
+                roots_now = [x for x in roots_now if x != u]
+                M.op('set_roots', roots_now)
             M.op('decref', u)
             ledger[abs(u)] -= 1
             held[u] -= 1
